@@ -603,7 +603,8 @@ def decorated_functions():
                         d = c.cell_contents
                     except ValueError:
                         continue
-                    if isinstance(d, qu.deprecated_kwarg):
+                    dk = getattr(qu, "deprecated_kwarg", None)   # private layout (recorded only): any of it may be gone after a rewrite
+                    if isinstance(dk, type) and isinstance(d, dk) and isinstance(getattr(d, "aliases", None), dict):
                         found[f"{obj.__module__}.{obj.__name__}"] = [[a, t] for a, t in d.aliases.items()]
     return found
 
@@ -663,12 +664,17 @@ def alias_case(ctx, case, st=None, A=None):
     ctx.case(case, nontrivial=nontrivial_state(s), sample={"op": "alias", "fn": case["fn"], "kind": s["kind"], "n": n, "forms": len(case["forms"])})
     ctx.count("op=alias"); ctx.count(f"alias.fn={case['fn']}"); ctx.count(f"alias.kind={s['kind']}")
     if case.get("introspect"):
-        found = decorated_functions()
+        try:
+            found = decorated_functions()
+        except Exception as e:  # noqa: BLE001  (introspection of private layout must never stop the check)
+            found = {"introspection failed": type(e).__name__}
         ctx.count(f"alias.decorated functions found by introspection: {sorted(found)}")
         if ctx.driver is not None:
             m = ctx.driver.call("c10.alias_call", kl=False, pos=[], kw=[])
             want = {"qucumber.utils.training_statistics.fidelity": m["aliases"], "qucumber.utils.training_statistics.KL": m["aliases"]}
-            ctx.point("alias.table", "aux", found, want, {"op": "alias-table"}, exact=True, sig="alias/table", theorem="C10_alias_rename_spec")
+            # third audit B-17: HOW the renaming is attached (closure cell, __wrapped__, a deprecated_kwarg instance with .aliases) is private
+            # layout - a function-style decorator, an inline kwargs.pop, no functools.wraps keep every call form: recorded only
+            ctx.info("alias.table (found by introspection of the decorator objects)", found, want)
     for (name, pos, kw) in case["forms"]:
         sub = dict(case, forms=[[name, pos, kw]], introspect=False)
         sig = f"alias/{case['fn']}/{name}"
@@ -680,24 +686,35 @@ def alias_case(ctx, case, st=None, A=None):
         if ctx.driver is None:
             continue
         m = ctx.driver.call("c10.alias_call", kl=is_kl, pos=[{"ref": ALIAS_REFS[t]} for t in pos], kw=[[k, {"ref": ALIAS_REFS[t]}] for k, t in kw])
+        # third audit B-2 / B-17: the deprecated names target_psi= / target_rho= are in no docstring and C10 never mentions them (finishing the
+        # deprecation keeps the property); junk keywords and malformed calls likewise.  Only forms written with the DOCUMENTED parameter names
+        # (positional / nn_state= / target= / space= / bases=) are judged; everything else is recorded with ctx.info.
+        documented = all(k in ("nn_state", "target", "space", "bases") for k, _ in kw)
         if "error" in m:
             if out[0] == "err":
                 ctx.count("alias: refused by implementation and model")
-            else:  # the property does not say which calls must be refused: auxiliary
-                ctx.point("alias.refused", "aux", "value", "refused", sub, exact=True, sig=sig + "/refused", theorem="C10_alias_rename_spec")
-            continue
-        if out[0] == "err":  # a code path the model accepts does not return a number
-            ctx.point("alias.accepted", "property", out[1], "value", sub, exact=True, sig=sig + "/accepted", theorem="C10_alias_same_value")
+            else:  # the property does not say which calls must be refused: recorded only
+                ctx.info(f"alias.refused ({name})", "value", "refused")
             continue
         tag = {v: k for k, v in ALIAS_REFS.items()}
         b = {p: (None if v is None else vals[tag[v["ref"]]]) for p, v in m["bound"].items()}
         assert b["nn_state"] is st
         canon = call(lambda: fn(st, b["target"], space=b["space"], bases=b["bases"]) if is_kl else fn(st, b["target"], space=b["space"]))
-        ctx.count("alias: accepted by implementation and model" + ("" if not any(k in ("target_psi", "target_rho") for k, _ in kw) else " (deprecated name)"))
-        if canon[0] != "ok":
+        if canon[0] != "ok":   # the BODY refuses these arguments: not a matter of the call form (judged by the metric points, not here)
             ctx.count("alias: canonical call refused (no verdict)")
             continue
-        ctx.point("alias.value", "property", [out[1]], [canon[1]], sub, scale=max(1.0, abs(canon[1])), sig=sig + "/value", theorem="C10_alias_same_value")
+        if out[0] == "err":  # a code path the model accepts does not return a number
+            if documented:
+                ctx.point("alias.accepted", "property", out[1], "value", sub, exact=True, sig=sig + "/accepted", theorem="C10_alias_same_value")
+            else:
+                ctx.info(f"alias.accepted ({name}: deprecated / undocumented keyword)", "refused", "value")
+            continue
+        ctx.count("alias: accepted by implementation and model" + ("" if not any(k in ("target_psi", "target_rho") for k, _ in kw) else " (deprecated name)"))
+        if documented:
+            ctx.point("alias.value", "property", [out[1]], [canon[1]], sub, scale=max(1.0, abs(canon[1])), sig=sig + "/value", theorem="C10_alias_same_value")
+        else:
+            ctx.info(f"alias.value ({name}: deprecated / undocumented keyword)",
+                     bool(abs(out[1] - canon[1]) <= 1e-9 * max(1.0, abs(canon[1]))) if isinstance(out[1], (int, float)) else out[1] == canon[1], True)
 
 # ---------------------------------------------------------------- fidelity
 def fidelity_case(ctx, case, st=None, A=None):
